@@ -66,6 +66,11 @@ type BEScenario struct {
 	Root []BEOp `json:"root,omitempty"`
 }
 
+type walkDelRec struct {
+	key string
+	err error
+}
+
 type walkEnt struct {
 	key string
 	val interface{}
@@ -88,6 +93,7 @@ type beRec struct {
 	err     error
 	n       int
 	walkErr error
+	walkDel []walkDelRec // walkDel: Delete calls issued from inside the Walk callback
 	walk    []walkEnt
 	panicV  interface{}
 
@@ -427,6 +433,21 @@ func (r *beRun) exec(ci, oi int, op *BEOp) *beRec {
 
 				return nil
 			})
+		case "walkDel":
+			// the callback deletes some of the entries it is shown (bit i of SleepNs: the i-th visited one):
+			// the cache is used from inside its own Walk
+			mask := uint64(op.SleepNs)
+			rec.n, rec.walkErr = r.bk.walk(func(key []byte, v interface{}, exp time.Time) error {
+				i := len(rec.walk)
+				rec.walk = append(rec.walk, walkEnt{key: string(key), val: nilTok(string(key), v), exp: exp.UnixNano(), seq: e.s.NextSeq()})
+
+				if mask>>(uint(i)%16)&1 == 1 {
+					rec.walkDel = append(rec.walkDel, walkDelRec{key: string(key), err: r.bk.del(ctx, append([]byte(nil), key...))})
+				}
+
+				return nil
+			})
+			e.out.fault("walk_callback_reenters_cache")
 		case "walkErr":
 			// the callback fails at the (SleepNs+1)-th entry: Walk must stop, report the error and the
 			// number of entries processed so far, and leave the cache usable
